@@ -26,4 +26,21 @@ theorem stabCirc_backends_agree :
     expectOrd id (RingHom.id Q8) (execOps (vecBackend (α := Q8) (P := Empty)) (VecState.new 2 2) [0, 0] stabCirc)
       (SimGF.shotProd xT) := by decide +kernel
 
+/-! `measure_all` on the stabilizer backend (qubit by qubit), X basis, permuted classical bits -/
+
+def stabAllCirc : List (COp Empty) :=
+  [.gate .H [0], .gate .CX [0, 1], .measureAll [1, 0] .X, .measure 1 2 .Z]
+
+theorem stabAllCirc_inFS : ∀ op ∈ stabAllCirc, InFS 2 (placed 2) op := by
+  simp [stabAllCirc, InFS, placed, ctlOK, shiftOk, Gate.nrBits]
+
+theorem law_on_stabAllCirc :
+    expectOrd id (RingHom.id Q8) (execOps stabQ8 (StabState.new 2 2) [0, 0] stabAllCirc) (shotProdS xT) =
+      gfShot 2 (RingHom.id Q8) xT stabAllCirc (SimGF.ket0 2, 0) ^ 2 := by decide +kernel
+
+theorem stabAllCirc_backends_agree :
+    expectOrd id (RingHom.id Q8) (execOps stabQ8 (StabState.new 2 2) [0, 0] stabAllCirc) (shotProdS xT) =
+    expectOrd id (RingHom.id Q8) (execOps (vecBackend (α := Q8) (P := Empty)) (VecState.new 2 2) [0, 0] stabAllCirc)
+      (SimGF.shotProd xT) := by decide +kernel
+
 end Q1t.Sim.Witness
